@@ -37,6 +37,8 @@ Definition run_case (pn : N) (dom : string) (args : list arg) : list string :=
   else if dom =? "mbinull" then run_mbinull p
   else if dom =? "iters" then
     match args with [AB bs; AL ops] => run_iters p bs ops | _ => bad end
+  else if dom =? "hiters" then
+    match args with [AB bs; AL ops] => run_hiters p bs ops | _ => bad end
   else if dom =? "hdrwalk" then
     match args with [AB bs] => run_hdr_walk p bs | _ => bad end
   else if dom =? "hdr" then
